@@ -14,6 +14,13 @@ import (
 	"golang.org/x/tools/go/ssa"
 )
 
+// guardRec: an object stored in a field declared `guardeduse` and the object that owns the field.
+type guardRec struct {
+	this PtrV
+	g    Clause
+	name string
+}
+
 type deferRec struct {
 	instr *ssa.Defer
 	guard Term
@@ -98,6 +105,8 @@ type FnExec struct {
 	owned         map[Term]bool
 	wraps         map[Term]Val        // wrapper object -> the object it reads / writes through
 	hw            Term                // current allocation watermark: every object allocated so far has an id <= hw
+	guardPtr      map[ssa.Value]*guardRec // address of a use-guarded field
+	guardedVals   map[Term]*guardRec      // object loaded from a use-guarded field
 	boxed         map[Term]Val        // interface value term -> the boxed pointer value (pointers to local cells)
 	boxType       map[Term]types.Type // interface value term -> static type of the boxed value
 	cbInfo        map[*ssa.Function]*cbState
